@@ -70,42 +70,7 @@ def run(ctx: Ctx):
 
     # ---- R08.a duplicate detection ---------------------------------------------------------
     ctx.rule("R08.a", "duplicate detection sees every definition: the transformer rejects a redefinition before atoms are merged in sets; gather_atoms records every kind, tagged; the predicate is 'more than one distinct value'", floor=10)
-    from . import util as _u8
-
-    tf = _u8.nf(ctx, "transformer.py", "TreeToODE.ode")  # private helpers expanded
-    loops = [n for n in tf.node.body if isinstance(n, ast.For)]
-    ctx.require(loops, "TreeToODE.ode: loop over the parsed lines not found")
-    outer = loops[0]
-    # the registry of first definitions lives outside the loop over lines
-    regs = [n for n in tf.node.body if isinstance(n, (ast.Assign, ast.AnnAssign)) and isinstance(n.value, (ast.Dict, ast.Call)) and norm(n.value) in ("{}", "dict()")]
-    reg_names = {norm(n.targets[0] if isinstance(n, ast.Assign) else n.target) for n in regs if n.lineno < outer.lineno}
-    sd = [c for c in ast.walk(outer) if isinstance(c, ast.Call) and isinstance(c.func, ast.Attribute) and c.func.attr == "setdefault" and len(c.args) == 2 and norm(c.args[0]).endswith(".name")]
-    ok_reg = bool(sd) and norm(sd[0].func.value) in reg_names
-    inner_regs = [n for n in ast.walk(outer) if isinstance(n, (ast.Assign, ast.AnnAssign)) and n.value is not None and norm(n.value) in ("{}", "dict()")]
-    ctx.check(ok_reg and not inner_regs, "R08.a", tf.key("registry-scope"), "one registry of first definitions for the whole text", "TreeToODE.ode: the registry of first definitions is not a single dict created before the loop over the lines (a redefinition in another block would not be seen)", tf.where(outer))
-    raises = [n for n in ast.walk(outer) if isinstance(n, ast.Raise) and "DuplicateSymbolError" in norm(n)]
-    ok_raise = False
-    if sd and raises:
-        atomvar = norm(sd[0].args[1])
-        prev = [n for n in ast.walk(outer) if isinstance(n, ast.Assign) and n.value is sd[0]]
-        pv = norm(prev[0].targets[0]) if prev else None
-        chain = common.cond_chain(tf.node, raises[0]) or []
-        conds = [c for c, pol in chain if pol and not c.startswith("loop")]
-        ok_raise = pv is not None and any(c.replace(" ", "") in (f"{pv}isnot{atomvar}", f"{atomvar}isnot{pv}") for c in conds) and norm(sd[0].args[0]) == f"{atomvar}.name"
-        # ... and no weaker guard in between (isinstance / early continue)
-        conds_all = [c for c, pol in chain if not c.startswith("loop")]
-        ok_raise = ok_raise and len(conds_all) == 1
-    ctx.check(ok_raise, "R08.a", tf.key("redefinition-raises"), "any second definition of a name raises DuplicateSymbolError", "TreeToODE.ode does not raise DuplicateSymbolError for every second definition of a name (`previous is not atom`): two definitions that compare equal are merged silently in the component sets, or duplicates survive", tf.where(raises[0]) if raises else tf.where())
-    adds = [c for c in ast.walk(outer) if isinstance(c, ast.Call) and isinstance(c.func, ast.Attribute) and c.func.attr == "add"]
-    ok_order = bool(adds) and bool(raises) and raises[0].lineno < adds[0].lineno
-    skips = [n for n in ast.walk(outer) if isinstance(n, ast.Continue)]
-    import re as _re
-
-    def _non_atom_guard(c: str) -> bool:
-        return _re.fullmatch(r"isinstance\(\w+, (atoms\.Comment|str)\)", c) is not None
-
-    ok_skip = all(any(_non_atom_guard(c) and pol for c, pol in (common.cond_chain(tf.node, s) or [])) for s in skips)
-    ctx.check(ok_order and ok_skip, "R08.a", tf.key("check-before-merge"), "the check runs for every atom before it is added to a set", "TreeToODE.ode: the redefinition check does not precede the insertion into the component sets for every atom", tf.where())
+    check_redefinition_guard(ctx, "R08.a")
 
     from sa import av as _av
 
@@ -357,3 +322,45 @@ def check_undefined_symbol(ctx: Ctx, rule: str):
     guards = [g for g in A.handler_log if g[1].split(".")[-1] in ("KeyError", "LookupError") and g[3] == cv]
     ok = any(g[2][0] == "raise" and len(g[2]) > 1 and str(g[2][1]).split(".")[-1] == "MissingSymbolError" for g in guards)
     ctx.check(ok, rule, key, "symbols_[name] -> KeyError -> MissingSymbolError", "build_expression: an undefined symbol is not turned into MissingSymbolError (" + ("the KeyError handler raises " + _av.show(guards[0][2]) if guards else "no handler turns the KeyError of the lookup into it") + ")", e2.where())
+
+
+def check_redefinition_guard(ctx: Ctx, rule: str):
+    """TreeToODE.ode: one registry of first definitions, a second definition of a name raises (by identity, so atoms
+    that merely compare equal are not merged), and the check precedes the insertion into the component sets."""
+    sm = ctx.sm
+    from . import util as _u8
+
+    tf = _u8.nf(ctx, "transformer.py", "TreeToODE.ode")  # private helpers expanded
+    loops = [n for n in tf.node.body if isinstance(n, ast.For)]
+    ctx.require(loops, "TreeToODE.ode: loop over the parsed lines not found")
+    outer = loops[0]
+    # the registry of first definitions lives outside the loop over lines
+    regs = [n for n in tf.node.body if isinstance(n, (ast.Assign, ast.AnnAssign)) and isinstance(n.value, (ast.Dict, ast.Call)) and norm(n.value) in ("{}", "dict()")]
+    reg_names = {norm(n.targets[0] if isinstance(n, ast.Assign) else n.target) for n in regs if n.lineno < outer.lineno}
+    sd = [c for c in ast.walk(outer) if isinstance(c, ast.Call) and isinstance(c.func, ast.Attribute) and c.func.attr == "setdefault" and len(c.args) == 2 and norm(c.args[0]).endswith(".name")]
+    ok_reg = bool(sd) and norm(sd[0].func.value) in reg_names
+    inner_regs = [n for n in ast.walk(outer) if isinstance(n, (ast.Assign, ast.AnnAssign)) and n.value is not None and norm(n.value) in ("{}", "dict()")]
+    ctx.check(ok_reg and not inner_regs, rule, tf.key("registry-scope"), "one registry of first definitions for the whole text", "TreeToODE.ode: the registry of first definitions is not a single dict created before the loop over the lines (a redefinition in another block would not be seen)", tf.where(outer))
+    raises = [n for n in ast.walk(outer) if isinstance(n, ast.Raise) and "DuplicateSymbolError" in norm(n)]
+    ok_raise = False
+    if sd and raises:
+        atomvar = norm(sd[0].args[1])
+        prev = [n for n in ast.walk(outer) if isinstance(n, ast.Assign) and n.value is sd[0]]
+        pv = norm(prev[0].targets[0]) if prev else None
+        chain = common.cond_chain(tf.node, raises[0]) or []
+        conds = [c for c, pol in chain if pol and not c.startswith("loop")]
+        ok_raise = pv is not None and any(c.replace(" ", "") in (f"{pv}isnot{atomvar}", f"{atomvar}isnot{pv}") for c in conds) and norm(sd[0].args[0]) == f"{atomvar}.name"
+        # ... and no weaker guard in between (isinstance / early continue)
+        conds_all = [c for c, pol in chain if not c.startswith("loop")]
+        ok_raise = ok_raise and len(conds_all) == 1
+    ctx.check(ok_raise, rule, tf.key("redefinition-raises"), "any second definition of a name raises DuplicateSymbolError", "TreeToODE.ode does not raise DuplicateSymbolError for every second definition of a name (`previous is not atom`): two definitions that compare equal are merged silently in the component sets, or duplicates survive", tf.where(raises[0]) if raises else tf.where())
+    adds = [c for c in ast.walk(outer) if isinstance(c, ast.Call) and isinstance(c.func, ast.Attribute) and c.func.attr == "add"]
+    ok_order = bool(adds) and bool(raises) and raises[0].lineno < adds[0].lineno
+    skips = [n for n in ast.walk(outer) if isinstance(n, ast.Continue)]
+    import re as _re
+
+    def _non_atom_guard(c: str) -> bool:
+        return _re.fullmatch(r"isinstance\(\w+, (atoms\.Comment|str)\)", c) is not None
+
+    ok_skip = all(any(_non_atom_guard(c) and pol for c, pol in (common.cond_chain(tf.node, s) or [])) for s in skips)
+    ctx.check(ok_order and ok_skip, rule, tf.key("check-before-merge"), "the check runs for every atom before it is added to a set", "TreeToODE.ode: the redefinition check does not precede the insertion into the component sets for every atom", tf.where())
